@@ -137,6 +137,22 @@ class Optional:
     pass
 def ufunc(x: int) -> int:
     return x
+class Outer:
+    class Mid:
+        class Inner:
+            pass
+        class Box(typing.Generic[T]):
+            pass
+def factory():
+    def inner_factory():
+        class Local:
+            pass
+        return Local
+    return inner_factory()
+UMid = Outer.Mid
+UInner = Outer.Mid.Inner
+UBox = Outer.Mid.Box
+ULocal = factory()
 '''
 
 # classes the Coq model names (constants c_<key> in Model/Inspect.v).  key -> python object
